@@ -9,6 +9,7 @@ import (
 	"sort"
 	"strings"
 	"sync"
+	"sync/atomic"
 	"time"
 
 	"golang.org/x/tools/go/packages"
@@ -85,6 +86,9 @@ type Engine struct {
 	fnCache     sync.Map
 	quiet       bool
 	deadline    time.Time
+	noMerge     bool
+	merges      atomic.Int64
+	mergeAborts atomic.Int64
 }
 
 func (eng *Engine) fnByName(pkg, name string) *ssa.Function {
@@ -357,6 +361,12 @@ func (eng *Engine) noteCover(h *Harness, label string, draws []Draw, decs []int6
 		h.Covers[label] = &Witness{Label: label, Draws: draws, Decs: append([]int64(nil), decs...)}
 	}
 	h.mu.Unlock()
+}
+
+func (eng *Engine) hasCover(h *Harness, label string) bool {
+	h.mu.Lock()
+	defer h.mu.Unlock()
+	return h.Covers[label] != nil
 }
 
 func violKey(v *Violation) string {
